@@ -550,11 +550,18 @@ let holds_line (mode : string) (case : string) (impl : string) : string =
               (match Model.check_template pool o interval (zs (field_d iw "hgt" "0")) cut txs (zs (field_d iw "bw" "0")) (zs (field_d iw "cbv" "0")) with
                | Some v -> fail !n (tviolation_str v) | None -> ());
               if field_d iw "valid" "?" <> "ok" then fail !n ("template-invalid:" ^ field_d iw "valid" "?");
-              (* the premises of the C23 theorems, evaluated on the chunk sequence the real block builder handed out *)
+              (* the premises of the C23 theorems about the block builder, evaluated on the chunk sequence it handed out, along
+                 the decisions the IMPLEMENTATION took (a chunk was included iff its transactions are in the template) *)
               (let ks = parse_chunks s (field_d iw "K" "-") in
-               let init = { Model.a_weight = o.Model.o_reserved; a_sigops = o.Model.o_cb_sigops; a_fees = z 0; a_sel = []; a_failed = z 0 } in
+               let selids = List.map (fun c -> c.Model.c_id) txs in
                if not (List.for_all Model.chunk_wf ks) then fail !n "builder-chunk-not-wf";
-               if Model.check_options o && not (Model.offered_ok pool o (zs (field_d iw "hgt" "0")) cut init ks) then fail !n "builder-offered-chunk-before-parents");
+               let have = ref [] in
+               List.iter (fun k ->
+                   let included = List.for_all (fun c -> List.mem c.Model.c_id selids) k.Model.k_txs in
+                   if included then begin
+                     if not (Model.chunk_parents_ok pool !have k.Model.k_txs) then fail !n "builder-offered-chunk-before-parents";
+                     have := List.rev_append (List.map (fun c -> c.Model.c_id) k.Model.k_txs) !have
+                   end) ks);
               if field_d iw "sub" "" <> string_of_z (Model.get_block_subsidy interval (zs (field_d iw "hgt" "0"))) then fail !n "subsidy-differs";
               (* selected transactions must be pool members *)
               List.iter (fun c -> if not (List.mem c.Model.c_id pool) then fail !n "template-tx-not-in-pool") txs
